@@ -3196,11 +3196,13 @@ func (b *builder) iterate() {
 	}
 
 	b.buildshared.markDone()
+	verifYield()
 	b.buildshared.wait()
 }
 
 // buildFunction builds IR code for the body of function fn.  Idempotent.
 func (b *builder) buildFunction(fn *Function) {
+	verifYield()
 	if fn.build != nil {
 		assert(fn.parent == nil, "anonymous functions should not be built by buildFunction()")
 
